@@ -18,11 +18,11 @@ from dv.evidence import Recorder, finish
 from checks.nodecommon import Result, record, generic_replay
 
 PID = "C07"
-RULE = ("histories over 36 event symbols x 1..3 connections (conn 0 optionally outbound): handshakes, "
+RULE = ("histories over 37 event symbols x 1..3 connections (conn 0 optionally outbound): handshakes, "
         "good requests, requests with a missing required AVP / unknown command / unknown application / "
         "foreign realm / no Destination-Realm / a routing-relevant AVP (Origin-Host, Origin-Realm, Destination-Realm, Destination-Host, Session-Id) repeated in a typed or untyped command, requests / DWR / DPR whose Origin-Host is not UTF-8, T-flagged repeats, answers nobody waits for, answers "
         "lacking Origin-Host or Result-Code (CEA, DWA, DPA, application), requests held by the application and "
-        "answered later, requests answered with Experimental-Result instead of Result-Code (also after the connection was lost and re-established, with the peer spelling its "
+        "answered later, requests whose handler answers and then raises, requests answered with Experimental-Result instead of Result-Code (also after the connection was lost and re-established, with the peer spelling its "
         "identity in another case), node-originated requests with "
         "good/defective replies, DWR/DPR, pairs of messages whose first read ends inside the second one, clock advances; all sequences to depth 3 on a ready connection "
         "are enumerated, deeper ones (to 14) drawn by Hypothesis. Non-trivial: the history contains a "
@@ -35,7 +35,7 @@ ASSUME = ["identifier values 0 and 2^32-1 are valid and are used (each special k
 SYMS = ["HS", "REQ", "REQ_missing", "REQ_unknown_cmd", "REQ_unknown_app", "REQ_foreign_realm", "REQ_no_realm",
         "REQ_T", "REQ_raise", "ANS_stray", "ANS_no_origin", "ANS_no_result", "CEA_no_origin", "CEA_stray",
         "DWA_stray", "DWA_no_origin", "DPA_stray", "DPA_no_result", "DWR", "DPR", "NODE_REQ", "NODE_REQ_ANS",
-        "ADV2", "ADV_IDLE", "REQ_hold", "SUBMIT", "RECONNECT", "REQ2_seg", "DWR_REQ_seg", "REQ_DWR_seg", "REQ_exp_result", "REQ_dup_avp", "REQ_dup_avp_T", "REQ_non_utf8_origin", "DWR_non_utf8_origin", "DPR_non_utf8_origin"]
+        "ADV2", "ADV_IDLE", "REQ_hold", "SUBMIT", "RECONNECT", "REQ2_seg", "DWR_REQ_seg", "REQ_DWR_seg", "REQ_exp_result", "REQ_dup_avp", "REQ_dup_avp_T", "REQ_non_utf8_origin", "DWR_non_utf8_origin", "DPR_non_utf8_origin", "REQ_answer_then_raise"]
 DEFECTIVE = {"ANS_stray", "ANS_no_origin", "ANS_no_result", "CEA_no_origin", "CEA_stray", "DWA_stray",
              "DWA_no_origin", "DPA_stray", "DPA_no_result", "REQ_missing", "REQ_unknown_cmd", "REQ_unknown_app",
              "REQ_foreign_realm", "REQ_no_realm", "REQ_raise", "REQ_T", "REQ_dup_avp", "REQ_dup_avp_T", "REQ_non_utf8_origin", "DWR_non_utf8_origin", "DPR_non_utf8_origin"}
@@ -80,12 +80,15 @@ def evaluate(case) -> Result:
         base_beh = w.apps[0]._verif_cfg.get("handler_plan")
 
         exp_ids = set()
+        after_ids = set()
 
         def beh(rec_):
             if rec_["hbh"] in hold_ids:
                 return "hold"
             if rec_["hbh"] in exp_ids:
                 return "answer-experimental"
+            if rec_["hbh"] in after_ids and case.get("app_kind") != "threading":
+                return "answer-then-raise"
             return None
         w.behaviour_fn = beh
         last_req = {}
@@ -128,6 +131,10 @@ def evaluate(case) -> Result:
                 j = last_req.get(ci, i)
                 w.feed_msg(c, dict(base, k="REQ", T=True, e2e=j))
             elif s == "REQ_raise":
+                w.feed_msg(c, dict(base, k="REQ"))
+            elif s == "REQ_answer_then_raise":
+                # the handler submits its answer and raises afterwards: the request has been answered
+                after_ids.add(base["hbh"])
                 w.feed_msg(c, dict(base, k="REQ"))
             elif s == "REQ_exp_result":
                 # the application answers with Experimental-Result instead of Result-Code (RFC 6733 7.6)
